@@ -18,6 +18,8 @@
     busyfd <limit> <timeout_ms> <u|p> <script>   results while an fd is ready on every poll -> conc totals
     collect <limit> <timeout_ms> <u|p> <pop|popx|cancel|submit|submitx|spawnb> <v|e|p> <tag>  -> got value | got error | got unwind c17-payload-<tag>
     cfg <new|lt|tl|reuse|forcelt|forcetl> <1|2|256|max> <0|1ns|1ms|1s|half|max> <u|p>  -> cfg ok jobs=<n> extra=<held|none>
+    dsp <limit> <workers> <in|out>   Dispatcher + worker runtimes, one pool behind both entry points -> dsp ok jobs=<limit+1> extra=held
+    rawp <limit> <timeout_ms> <panics>   uncaught panics through raw dispatch, then limit+1 jobs -> rawp crashed=<p> ran=<limit> extra=busy
     parked <limit> <timeout_ms> <u|p> <hold_ms> <poll_timeout_ms>   shared pool held by a foreign dispatcher -> conc value=<limit+1> ..
 -/
 import Compio.Model.Common
@@ -257,6 +259,35 @@ def step (m : Mode) (line : String) : Mode × String :=
         let started := running s2
         let total := started + (if extra && held == "held" then 1 else 0)
         (m, s!"cfg ok jobs={total} extra={held}")
+    | _, _ => (m, "bad-op")
+  | ["dsp", lim, _workers, _dir], _ =>
+    -- ONE pool behind `spawn_blocking` in the worker runtimes and `Dispatcher::dispatch_blocking`
+    -- (`Props.C17.dispatcher_entry_points_share_one_pool`): `limit` gated jobs through one entry point, the extra
+    -- one through the other is refused while they run, whichever dispatcher of the model submits it
+    match lim.toNat? with
+    | some limit =>
+      let s0 := init limit 1 false
+      let s1 := (List.range limit).foldl (fun (acc : State) _ => (detDisp acc .value).1) s0
+      let (s2, o) := detDisp s1 .value
+      let held := if o.startsWith "busy" then "held" else "ran"
+      let total := running s2 + (if held == "held" then 1 else 0)
+      (m, s!"dsp ok jobs={total} extra={held}")
+    | none => (m, "bad-op")
+  | ["rawp", lim, _t, panics], _ =>
+    -- uncaught panics kill their thread; `exit` (the guard's `fetch_sub`) is taken on that path too, so afterwards
+    -- `limit` jobs are accepted and one more is refused
+    match lim.toNat?, panics.toNat? with
+    | some limit, some panics =>
+      let s0 := init limit 1 false
+      let (s1, crashed) := (List.range panics).foldl (fun (acc : State × Nat) _ =>
+        let (a, o) := detDisp acc.1 .raw
+        let j := a.njobs - 1
+        let (b, o2) := detFin a j
+        (b, acc.2 + (if o.startsWith "ok" && o2.endsWith "crash" then 1 else 0))) (s0, 0)
+      let base := running s1
+      let s2 := (List.range limit).foldl (fun (acc : State) _ => (detDisp acc .value).1) s1
+      let (_, o) := detDisp s2 .value
+      (m, s!"rawp crashed={crashed} ran={running s2 - base} extra={if o.startsWith "busy" then "busy" else "other"}")
     | _, _ => (m, "bad-op")
   | ["hist", l], _ =>
     match l.toNat? with
